@@ -48,6 +48,11 @@ type Target struct {
 	// from Limits, 1000 when there is none).  For arguments the oracle cannot execute (a shift
 	// count `uint(n)` for negative n is 2^64-|n|: Lean's Nat shift aborts).
 	ArgMin []*int64 `json:"arg_min,omitempty"`
+	// ResultViews: accept `return p` / `return p[a:b]` of a WRITTEN slice parameter p: the translation
+	// returns the content of the view at the return statement next to the updated p; that result and
+	// argument share memory after the call is not represented (the generated header says so).  Opt-in:
+	// the property must cover that aliasing elsewhere (hand-written model, correspondence check).
+	ResultViews bool `json:"result_views,omitempty"`
 	// NoDiff: no trans-diff for this target (say why in Note).
 	NoDiff bool   `json:"nodiff,omitempty"`
 	Note   string `json:"note,omitempty"`
